@@ -283,12 +283,24 @@ TRUSTED_COMMON = [
 ]
 
 
+def prebuild(pid):
+    """bring the .vo files of the property's cone up to date before the model is evaluated (under the build lock)"""
+    import fcntl
+    with open(os.path.join(COQ, '.build.lock'), 'w') as lockf:
+        fcntl.flock(lockf, fcntl.LOCK_EX)
+        return coq_build(['Properties/%s.vo' % pid])
+
+
 def finish(ctx, out, level_text_partial=None):
     """common tail of every check: proof status + correspondence -> exit code, evidence, VIOLATION lines"""
     pid = ctx.pid
     t_build = time.time()
-    ok_build, log_build = coq_build(['Properties/%s.vo' % pid])
-    ok_prop, thms, assum, log_prop = coq_property(pid) if ok_build else (False, [], {}, '')
+    # checks may run concurrently: two `make`s in one directory must not compile the same file at once
+    import fcntl
+    with open(os.path.join(COQ, '.build.lock'), 'w') as lockf:
+        fcntl.flock(lockf, fcntl.LOCK_EX)
+        ok_build, log_build = coq_build(['Properties/%s.vo' % pid])
+        ok_prop, thms, assum, log_prop = coq_property(pid) if ok_build else (False, [], {}, '')
     hits = forbidden_scan(pid)
     bad_axioms = {t: [a for a in ax if a.split('.')[-1] not in {x.split('.')[-1] for x in ALLOWED_AXIOMS}] for t, ax in assum.items()}
     bad_axioms = {t: a for t, a in bad_axioms.items() if a}
@@ -368,8 +380,10 @@ def finish(ctx, out, level_text_partial=None):
         'wall_s': round(time.time() - ctx.t0, 1),
         'violations': len(new_viol) + (1 if (status and not new_viol) else 0),
     }
-    os.makedirs(os.path.join(VERIF, 'evidence'), exist_ok=True)
-    with open(os.path.join(VERIF, 'evidence', pid + '.json'), 'w') as f:
+    # a run against a scratch copy (VERIF_REPO, used to try seeded changes) must not overwrite committed evidence
+    evdir = os.path.join(VERIF, 'evidence') if REPO == '/repo' else os.path.join(VERIF, '.scratch', 'evidence-' + os.path.basename(REPO))
+    os.makedirs(evdir, exist_ok=True)
+    with open(os.path.join(evdir, pid + '.json'), 'w') as f:
         json.dump(ev, f, indent=1, default=str)
     print('%s %s: theorems=%d proof_ok=%s cases=%d nontrivial=%d mismatches=%d violations=%d known=%d wall=%.0fs' % (
         pid, ctx.tier, len(thms), proof_ok, out.evaluations, len(out.nontrivial), len(out.mismatches),
